@@ -142,7 +142,7 @@ class kFlowDecompCycles(walkmodel.AbstractWalkModelDiGraph):
 
 
         self.k = k
-        self.optimization_options = optimization_options or {}        
+        self.optimization_options = dict(optimization_options) if optimization_options else {}  # a copy: the caller's dict must not be modified
 
         self.subset_constraints_coverage = subset_constraints_coverage
         
